@@ -103,6 +103,11 @@ func VerifDescriptor() {
 	zzverif.Assert(s.Second == 1 && s.Minute == 1, "descriptor_on_minute_zero_second_zero")
 	zzverif.Assert(s.Hour == want.hour && s.Dom == want.dom && s.Month == want.month && s.Dow == want.dow, "descriptor_meaning")
 	zzverif.Assert(s.Location == time.UTC, "descriptor_keeps_zone")
+	// the meaning of a schedule does not change when the same descriptor is parsed again for another zone
+	before := *s
+	again, err := parseDescriptor(d, new(time.Location))
+	zzverif.Assert(err == nil && again.(*SpecSchedule) != s, "each_parse_gives_its_own_schedule")
+	zzverif.Assert(*s == before, "schedule_keeps_its_zone_and_fields_when_the_descriptor_is_parsed_again")
 	zzverif.Cover("descriptor_accepted")
 }
 
